@@ -68,17 +68,19 @@ def updateVertex (pts : Array (V2 K)) (idx : Nat) (vi : VInfo K) : VInfo K × Bo
     ({ vi with ear := r.1 }, !r.2)
   else ({ vi with ear := false }, true)
 
+/-- `info.is_active = true; info.p_prev = …; info.p_next = …` for vertex `i` of `n` -/
+def initVInfo (n i : Nat) : VInfo K :=
+  { active := true, ear := false, pointiness := 0,
+    prev := if i = 0 then n - 1 else i - 1,
+    next := if i = n - 1 then 0 else i + 1 }
+
 /-- the initialisation `vertex_info.iter_mut().enumerate().all(..)`: stops at the first failure -/
 def initInfos (pts : Array (V2 K)) : Nat → Array (VInfo K) → Option (Array (VInfo K))
   | 0, acc => some acc
   | k + 1, acc =>
-    let n := pts.size
-    let i := n - (k + 1)
-    let vi : VInfo K := { active := true, ear := false, pointiness := 0,
-                          prev := if i = 0 then n - 1 else i - 1,
-                          next := if i = n - 1 then 0 else i + 1 }
-    let (vi', ok) := updateVertex pts i vi
-    if ok then initInfos pts k (acc.push vi') else none
+    let i := pts.size - (k + 1)
+    let r := updateVertex pts i (initVInfo pts.size i)
+    if r.2 then initInfos pts k (acc.push r.1) else none
 
 /-- `max_by(pointiness)` over the active ears: the *last* maximal element wins (Rust `Iterator::max_by`) -/
 def pickEar (info : Array (VInfo K)) : Option Nat :=
@@ -115,12 +117,12 @@ def clipLoop (pts : Array (V2 K)) : Nat → Nat → Array (VInfo K) → Array (N
       let out := out.push (e.prev, ear, e.next)
       let info := unlink info ear
       if i = pts.size - 4 then some (info, out) else
-      let (vp, ok1) := updateVertex pts e.prev (info.getD e.prev default)
-      let info := info.setIfInBounds e.prev vp
-      if !ok1 then none else
-      let (vn, ok2) := updateVertex pts e.next (info.getD e.next default)
-      let info := info.setIfInBounds e.next vn
-      if !ok2 then none else
+      let r1 := updateVertex pts e.prev (info.getD e.prev default)
+      let info := info.setIfInBounds e.prev r1.1
+      if !r1.2 then none else
+      let r2 := updateVertex pts e.next (info.getD e.next default)
+      let info := info.setIfInBounds e.next r2.1
+      if !r2.2 then none else
       clipLoop pts (i + 1) fuel info out
 
 /-- `triangulate_ear_clipping(vertices)` with the two corrections described in the module header -/
